@@ -273,4 +273,38 @@ impl Session {
 
         Ok((packet, session))
     }
+
+    /// Verification hook: `encrypt_with_header` with the given bytes in the place of the
+    /// id-signature (a peer that cannot or does not sign).
+    #[cfg(discv5_verif)]
+    pub(crate) fn verif_encrypt_with_header_sig(
+        remote_contact: &NodeContact,
+        sig: Vec<u8>,
+        updated_enr: Option<Enr>,
+        local_node_id: &NodeId,
+        protocol_identity: ProtocolIdentity,
+        challenge_data: &ChallengeData,
+        message: &[u8],
+    ) -> Result<(Packet, Session), Error> {
+        let (encryption_key, decryption_key, ephem_pubkey) =
+            crypto::generate_session_keys(local_node_id, remote_contact, challenge_data)?;
+        let keys = Keys {
+            encryption_key,
+            decryption_key,
+        };
+        let message_nonce: MessageNonce = rand::random();
+        let mut packet = Packet::new_authheader(
+            *local_node_id,
+            message_nonce,
+            protocol_identity,
+            sig,
+            ephem_pubkey,
+            updated_enr,
+        );
+        let mut authenticated_data = packet.iv.to_be_bytes().to_vec();
+        authenticated_data.extend_from_slice(&packet.header.encode());
+        packet.message =
+            crypto::encrypt_message(&encryption_key, message_nonce, message, &authenticated_data)?;
+        Ok((packet, Session::new(keys)))
+    }
 }
